@@ -923,3 +923,28 @@ func (s *sim) finishTick(r *tickRec) {
 func (s *sim) poll(r *tickRec) bool {
 	return r == nil || r.done
 }
+
+// runFunc runs an arbitrary piece of the daemon (e.g. one repair function) as a step of p.
+func (s *sim) runFunc(p *simProc, name string, f func()) {
+	for i := 0; s.anyBusy(p); i++ {
+		s.advance(time.Second)
+	}
+	ch := make(chan struct{})
+	p.inflight[name] = ch
+	go func() {
+		defer close(ch)
+		defer func() {
+			if r := recover(); r != nil {
+				s.recordPanic(p, name, r)
+			}
+		}()
+		f()
+	}()
+	synctest.Wait()
+	for i := 0; s.busy(p, name); i++ {
+		s.advance(time.Second)
+		if i > 4000 {
+			s.t.Fatalf("harness: %s of %s did not finish", name, p.id)
+		}
+	}
+}
